@@ -93,6 +93,15 @@ def runNode (j : Json) : Except String Json := do
     | "id" => pure (setNegatableId n0)
     | _ => throw "negatable"
   let some n0 := n0 | return Json.mkObj [("init", "ValueError")]
+  -- the double the implementation holds for the token (the model's own reading is the exact decimal; they differ
+  -- by at most half an ulp, DESIGN 1.3); magnitude and sign conventions are those of the node built above
+  let n0 ← match j.getObjVal? "og_double" with
+    | .ok v => do
+      if v.isNull then pure n0 else
+      let x ← getNum v
+      let setMag (o : Option Num) : Option Num := o.map fun y => { y with mag := x.mag }
+      pure { n0 with value := setMag n0.value, ogValue := setMag n0.ogValue }
+    | .error _ => pure n0
   let mut n := n0
   let mut outs : Array Json := #[]
   for op in ops do
@@ -118,6 +127,26 @@ def runNode (j : Json) : Except String Json := do
     | _ => throw s!"op {name}"
   return Json.mkObj [("init", "ok"), ("outs", Json.arr outs)]
 
+/-- a live `ValueNode` serialised after the API call that set it (`_is_reversed` is still `False`) -/
+def runState (j : Json) : Except String Json := do
+  let tok ← getTok (← j.getObjVal? "token")
+  let ty ← (← j.getObjVal? "ty").getStr?
+  let ty ← match ty with | "float" => pure Ty.float | "int" => pure Ty.int | _ => throw "ty"
+  let pad ← getPad (← j.getObjVal? "pad")
+  let neverPad ← (← j.getObjVal? "never_pad").getBool?
+  let value ← getOptNum (← j.getObjVal? "value")
+  let og ← getOptNum (← j.getObjVal? "og")
+  let isNegId ← (← j.getObjVal? "is_neg_id").getBool?
+  let isNegVal ← (← j.getObjVal? "is_neg_val").getBool?
+  let b ← j.getObjVal? "is_neg"
+  let isNeg ← if b.isNull then pure none else (b.getBool?).map some
+  let n : Node := { token := tok, ty, padding := pad, neverPad, value, ogValue := og, isNegId, isNegVal, isNeg,
+                    fmt := (match ty with | .float => floatDefaults | .int => intDefaults), isReversed := false }
+  let tag := branchTag n
+  let (_, t) := format n
+  let w := Spec.firstWord t
+  return Json.mkObj [("text", txt t), ("branch", tag), ("word", txt w), ("spec", optRat (Spec.parseChars w))]
+
 def runPyFormat (j : Json) : Except String Json := do
   let style ← (← j.getObjVal? "style").getStr?
   let p ← (← j.getObjVal? "p").getNat?
@@ -137,6 +166,7 @@ def runPyFormat (j : Json) : Except String Json := do
 def runCase (j : Json) : Except String Json := do
   match j.getObjVal? "unit" with
   | .ok (Json.str "pyformat") => runPyFormat j
+  | .ok (Json.str "state") => runState j
   | .ok (Json.str "read") =>
     let w ← (← j.getObjVal? "word").getStr?
     return Json.mkObj [("spec", optRat (Spec.parseNumber w)), ("fortran_float", optRat (fortranFloat w.toList)),
